@@ -120,7 +120,32 @@ def same_numbers(a, b, exact):
     return bool(np.all(ok))
 
 
+def _unstable(ex, vals, wrap, i, vx, vy):
+    """tolerant comparisons only: is |vx - vy| explained by the sensitivity of the template to 1e-12 relative noise in the data?"""
+    try:
+        vals = list(vals)
+        worst = None
+        for sgn in (1.0, -1.0):
+            pert = C.make_data(lambda n: [v * (1.0 + sgn * (1e-12 if k % 2 else -1e-12)) + sgn * 1e-13 for k, v in enumerate(vals[:n])])
+            lp = C.flatten(C.evaluate(ex, pert, wrap))
+            kp, vp, _ = leaf_facts(lp[i])
+            vp = np.asarray(vp).astype(complex)
+            a = np.asarray(vx).astype(complex)
+            if vp.shape != a.shape:
+                return True
+            d = np.abs(vp - a)
+            worst = d if worst is None else np.maximum(worst, d)
+        diff = np.abs(np.asarray(vx).astype(complex) - np.asarray(vy).astype(complex))
+        with np.errstate(all="ignore"):
+            scale = float(np.nanmax(np.abs(np.asarray(vx).astype(complex)))) if np.size(vx) else 0.0
+            return bool(np.all((diff <= 1e-9 * scale + 1e3 * worst) | ~np.isfinite(diff)))
+    except Exception:
+        return False
+
+
 def judge_data(vals, part, templates=None):
+    from unyt import Unit
+
     out = []
     data = C.make_data(lambda n: list(vals)[:n])
     for fn, ex, fl in templates or C.all_templates():
@@ -166,6 +191,17 @@ def judge_data(vals, part, templates=None):
                     if dx != T.LENGTH:
                         out.append((f"C07:wrong-dimension:{fn}:{tk}", {"expr": ex, "assignment": label, "leaf": i, "got": T.dim_name(dx), "unit": str(x.units)}))
                         break
+                if kx == "unyt" and label != "ordinary":
+                    # a unit-carrying result can be named in its own registry (it did not drift into the default one)
+                    lost = None
+                    for leaf_ in (x, y):
+                        try:
+                            Unit(str(leaf_.units), registry=leaf_.units.registry)
+                        except Exception as e_:
+                            lost = (leaf_, e_)
+                    if lost:
+                        out.append((f"C07:result-unit-unknown-to-its-own-registry:{fn}:{tk}", {"expr": ex, "assignment": label, "leaf": i, "result": repr(lost[0])[:100], "error": f"{type(lost[1]).__name__}: {lost[1]}"[:120]}))
+                        break
                 if kx == "unyt" and dx != dy:
                     out.append((f"C07:dimension-depends-on-units:{fn}:{tk}", {"expr": ex, "assignment": label, "leaf": i, "first": str(x.units), "second": str(y.units)}))
                     break
@@ -174,6 +210,11 @@ def judge_data(vals, part, templates=None):
                 if np.size(vx) and np.any(np.asarray(vx) != 0):
                     nontriv = True
                 if not same_numbers(vx, vy, exact_here):
+                    if not exact_here and _unstable(ex, vals, make_wrap(as1, shared, regsel), i, vx, vy):
+                        # cancellation / ill-conditioning: the result moves by more than the observed difference when the
+                        # data are perturbed in the 12th digit, so the difference says nothing about units
+                        part.count("tolerant comparison at an unstable point (not judged)")
+                        continue
                     what = "not-covariant" if kx == "unyt" else "bare-result-changes"
                     out.append((f"C07:{what}:{fn}:{tk}", {"expr": ex, "assignment": label, "leaf": i, "exact_required": exact_here,
                                                      "first": repr(x)[:120], "second": repr(y)[:120],
@@ -209,6 +250,7 @@ def run(ctx):
     )
     ctx.assumptions = [
         "rounding family (flag R) is excluded from the numeric clause, LAPACK/FFT-backed functions (flag T) are judged at rel 1e-9 instead of bit-exact",
+        "a tolerant (not bit-exact) comparison that fails is re-examined: if perturbing the data by 1e-12 relative moves the result by more than 1/1000 of the observed difference (cancellation, near-degenerate eigenvectors) the case is counted as unstable and not judged; bit-exact dyadic comparisons are never relaxed",
         "a raise under both assignments is acceptable; string-producing functions are skipped",
         "the type clause (flag K) is asserted for selection/reshaping/sorting/rounding/interpolation/location-spread templates only",
     ]
